@@ -161,7 +161,7 @@ def run_cases(res, modname, cases, fname="execute", procs=None, chunksize=4):
 def load_known(pid):
     if not KNOWN.exists():
         return []
-    data = json.loads(KNOWN.read_text())
+    data = json.loads(KNOWN.read_text(encoding="utf-8"))
     return [e for e in data.get("findings", []) if e.get("property") == pid]
 
 
@@ -208,7 +208,7 @@ def write_evidence(res, tier, seed, wall, violations):
     EVIDENCE_DIR.mkdir(exist_ok=True, parents=True)
     text = json.dumps(doc, indent=1, default=repr, ensure_ascii=False)
     path = EVIDENCE_DIR / f"{res.pid}.json"
-    path.write_text(text + "\n")
+    path.write_text(text + "\n", encoding="utf-8")
     validate_evidence(path)
 
 
@@ -258,7 +258,7 @@ def report(res, tier, seed, wall):
         d = REPLAY_DIR / res.pid
         d.mkdir(parents=True, exist_ok=True)
         path = d / f"{h}.json"
-        path.write_text(json.dumps(body, indent=1, default=repr, ensure_ascii=False) + "\n")
+        path.write_text(json.dumps(body, indent=1, default=repr, ensure_ascii=False) + "\n", encoding="utf-8")
         print(f"VIOLATION property={res.pid} replay={path}")
         print("  " + (f["detail"] or jkey(f["sig"]))[:600].replace("\n", "\n  "))
         reported += 1
@@ -293,7 +293,7 @@ def main(argv=None):
         if args.replay:
             env.private_cache_home()
             env.import_lib()
-            body = json.loads(pathlib.Path(args.replay).read_text())
+            body = json.loads(pathlib.Path(args.replay).read_text(encoding="utf-8"))
             fn = getattr(mod, body["case"].get("fn", "replay"), None) or mod.execute
             out = fn(body["case"])
             print(json.dumps(out, indent=1, default=repr, ensure_ascii=False))
